@@ -72,6 +72,11 @@ func closuresOf(f *ssa.Function) []*ssa.Function {
 }
 
 func runC05(c *Ctx) {
+	c.jcsRules()
+}
+
+// jcsRules: the RFC 8785 constant/table rules, shared with the properties that hash JCS output.
+func (c *Ctx) jcsRules() {
 	const pJC = "internal/jsoncanonicalizer"
 	tr := c.Fn(pJC, "Transform")
 	ntj := c.Fn(pJC, "NumberToJSON")
@@ -132,6 +137,78 @@ func runC05(c *Ctx) {
 	}
 	c.Check("C05.T1", "aligned-lookup:both-directions", aligned == 2, tr.Pos(), fmt.Sprintf("%d aligned cross-table lookups (reader and writer)", aligned))
 	c.Min("C05.T1", 5)
+
+	// ---- T2 writer exits: the string writer returns its builder; a fast path that returns the raw string
+	// unescaped is admissible only behind a guard that tests every byte for '"', '\\' and < 0x20.
+	{
+		var writer *ssa.Function
+		for _, f := range cls {
+			forEachInstr(f, func(in ssa.Instruction) {
+				if cl, ok := in.(*ssa.Call); ok && cl.Call.StaticCallee() != nil && cl.Call.StaticCallee().String() == "fmt.Sprintf" && c.Path(cl.Call.Args[0], nil) == `"\\u%04x"` {
+					writer = f
+				}
+			})
+		}
+		if writer == nil {
+			c.Check("C05.T2", "writer-exits", false, tr.Pos(), "string writer closure not found")
+		} else {
+			ok := true
+			var notes []string
+			for _, r := range returnsOf(writer) {
+				p := c.Path(r.Results[0], nil)
+				if strings.HasPrefix(p, "(*strings.Builder).String(") {
+					continue
+				}
+				// fast path: must be dominated by the false edge of a per-byte scan for '"', '\\' and < 0x20
+				guarded := false
+				for b := r.Block(); b != nil; b = b.Idom() {
+					id := b.Idom()
+					if id == nil || len(b.Preds) != 1 {
+						continue
+					}
+					iff, isIf := id.Instrs[len(id.Instrs)-1].(*ssa.If)
+					if !isIf {
+						continue
+					}
+					cond := iff.Cond
+					neg := false
+					if u, isU := cond.(*ssa.UnOp); isU && u.Op == token.NOT {
+						cond, neg = u.X, true
+					}
+					cl, isC := cond.(*ssa.Call)
+					if !isC {
+						continue
+					}
+					truth := (id.Succs[0] == b) != neg // value of the scan result on this edge
+					for _, h := range c.Callees(&cl.Call) {
+						got := map[string]bool{}
+						forEachInstr(h, func(in ssa.Instruction) {
+							if bo, isB := in.(*ssa.BinOp); isB {
+								if k, isK := bo.Y.(*ssa.Const); isK && strings.Contains(c.Path(bo.X, nil), "[ι]") {
+									if bo.Op == token.EQL {
+										got[c.Path(k, nil)] = true
+									}
+									if bo.Op == token.LSS && c.Path(k, nil) == "32" {
+										got["<32"] = true
+									}
+								}
+							}
+						})
+						if !truth && got["34"] && got["92"] && got["<32"] {
+							guarded = true
+						}
+						notes = append(notes, fmt.Sprintf("fast path guarded by %s testing %v", h.Name(), keysOfBool(got)))
+					}
+				}
+				if !guarded {
+					ok = false
+					notes = append(notes, "exit returning "+p+" is not behind a scan for '\"', '\\' and control bytes")
+				}
+			}
+			c.Check("C05.T2", "writer-exits", ok, writer.Pos(), "every exit of the string writer returns the escaped builder (or an unescaped fast path behind a complete per-byte scan) "+strings.Join(notes, "; "))
+		}
+	}
+	c.Min("C05.T2", 1)
 
 	// ---- K1 control characters
 	{
@@ -389,6 +466,73 @@ func runC05(c *Ctx) {
 	}
 	c.Min("C05.P3", 1)
 
+	// ---- K4 surrogate pairs in \u escapes: the first unit of an escape starts a pair exactly when it is a
+	// surrogate; either decided by unicode/utf16.IsSurrogate or by comparisons whose constants delimit
+	// exactly the high-surrogate range D800..DBFF or the whole surrogate range D800..DFFF.
+	{
+		okS, detail := false, "no utf16.DecodeRune call found in the string reader"
+		for _, f := range cls {
+			forEachInstr(f, func(in ssa.Instruction) {
+				cl, ok := in.(*ssa.Call)
+				if !ok || cl.Call.StaticCallee() == nil || cl.Call.StaticCallee().String() != "unicode/utf16.DecodeRune" {
+					return
+				}
+				first := cl.Call.Args[0]
+				// conditions on `first` dominating the DecodeRune call
+				lo, hi := int64(-1), int64(-1)
+				viaLib := false
+				for b := cl.Block(); b != nil; b = b.Idom() {
+					id := b.Idom()
+					if id == nil || len(b.Preds) != 1 {
+						continue
+					}
+					iff, isIf := id.Instrs[len(id.Instrs)-1].(*ssa.If)
+					if !isIf {
+						continue
+					}
+					truth := id.Succs[0] == b
+					switch x := iff.Cond.(type) {
+					case *ssa.Call:
+						if g := x.Call.StaticCallee(); g != nil && g.String() == "unicode/utf16.IsSurrogate" && x.Call.Args[0] == first && truth {
+							viaLib = true
+						}
+					case *ssa.BinOp:
+						l, r, op := x.X, x.Y, x.Op
+						if r == first {
+							l, r, op = r, l, flipOp(op)
+						}
+						k, isK := r.(*ssa.Const)
+						if l != first || !isK {
+							continue
+						}
+						if !truth {
+							op = negOp(op)
+						}
+						v, _ := constant.Int64Val(k.Value)
+						switch op {
+						case token.GEQ:
+							lo = v
+						case token.GTR:
+							lo = v + 1
+						case token.LEQ:
+							hi = v
+						case token.LSS:
+							hi = v - 1
+						}
+					}
+				}
+				if viaLib {
+					okS, detail = true, "pair detection by unicode/utf16.IsSurrogate on the first escaped unit"
+				} else {
+					okS = lo == 0xD800 && (hi == 0xDBFF || hi == 0xDFFF)
+					detail = fmt.Sprintf("hand-written surrogate range [%#x, %#x] (must be [0xd800, 0xdbff] or [0xd800, 0xdfff])", lo, hi)
+				}
+			})
+		}
+		c.Check("C05.K4", "surrogate-pair-detection", okS, tr.Pos(), detail)
+	}
+	c.Min("C05.K4", 1)
+
 	// ---- P2
 	c.hashLeafContracts("C05.P2")
 
@@ -416,4 +560,13 @@ func runC05(c *Ctx) {
 	}
 	c.Min("C05.K3", 2)
 	c.Assume("strconv.FormatFloat(-1 precision) yields the shortest round-trip digits; correctness of the re-serialiser as a whole (fixed point, value preservation) is not decided")
+}
+
+func keysOfBool(m map[string]bool) []string {
+	var ks []string
+	for k := range m {
+		ks = append(ks, k)
+	}
+	sort.Strings(ks)
+	return ks
 }
